@@ -972,6 +972,10 @@ func ruleOMShape(c *Ctx) {
 				if x.Op != token.MUL {
 					return derivesFromP(x.X)
 				}
+				// a load through what a helper made of p
+				if call, isCall := x.X.(*ssa.Call); isCall {
+					return derivesFromP(call)
+				}
 			}
 			return strings.Contains(accessPath(v), p.Name())
 		}
